@@ -1429,6 +1429,9 @@ pub fn variants(level: u8) -> Vec<Vec<Crit>> {
             pre("a.c", false),
             pre("^(?:FOO|bar).*$", false),
             pre("<B&C$", true),
+            // regular expressions that carry their own inline flag (case-insensitivity not requested from outside)
+            pre("(?i)^fo+$", false),
+            pre("^bar|(?i)foo", false),
         ]);
     }
     let pay = pay.into_iter().map(Crit::Pay).collect();
